@@ -4,7 +4,7 @@ from ..engine import AND, OR, NOT
 from ..values import is_variant, payload, St
 from .. import replay as rp
 from .. import oracles as O
-from .setops import bits_for, fnr, decode_ab, prog_ab, built
+from .setops import premise_group, constructor_group, bits_for, fnr, decode_ab, prog_ab, built
 
 from ..validate import validation_group
 BOUNDS = {'quick': {'single interval': 'concrete order, identifier lists <= 1, components full u64 <= MAX_SAFE_INTEGER', 'ranges': '1..2 alternatives, hybrid mode (identifiers abstract)'},
@@ -23,7 +23,9 @@ def groups(tier):
         gs.append({'name': 'interval-L1', 'fn': interval_group, 'args': {'L': 1}})
     for k in range(1, K + 1):
         gs.append({'name': 'range-%d' % k, 'fn': range_group, 'args': {'k': k}})
+    gs.append({'name': 'constructor', 'fn': constructor_group, 'args': {'L': 1 if tier == 'quick' else 2}})
     gs.append(validation_group(('satisfies',), tier))
+    gs.append(premise_group(tier))
     return gs
 
 
